@@ -231,7 +231,7 @@ def check_projection(ctx, t, d, rng, cases):
         tc = ("b", c[1], tuple(sub.shape), c[3], c[4])
         xc = list(sub.reshape(-1))
     tt, dd = ("st", "d", [tc]), [xc]
-    case = {"tmpl": pack(t), "data": pack(d), "ce": ce}
+    case = {"tmpl": pack(t), "data": pack(d), "ce": ce, "ref": X.ref_enc(tt, dd).hex()}
     cls = classify(t, d)
     try:
         app, r = serve(t, d, ce)
@@ -345,28 +345,17 @@ def replay(payload):
     d = unpack_d(t, c["data"])
     tail = bytes.fromhex(c.get("tail", "x")[1:]) if isinstance(c.get("tail"), str) else b""
     if "ce" in c:
-        class Rec(object):
-            tags = {}
-
-            def __init__(self):
-                self.f = []
-                from collections import Counter
-                self.tags = Counter()
-
-            def oracle_fail(self, what, case, obs, exp, cls=None, size=None):
-                self.f.append((what, obs, exp))
-
-            def count(self, *a, **k):
-                pass
-        import random
-        rec = Rec()
-        # replay the recorded constraint literally
+        # replay the recorded constraint literally against the recorded reference encoding
         app, r = serve(t, d, c["ce"])
         cl = r.headers.get("Content-Length")
         raw = r.body
         print("GET /d.dods?%s -> %d, %d bytes, Content-Length %s" % (c["ce"], r.status_int, len(raw), cl))
-        ok = raw.startswith(b"Dataset {") and (cl is None or int(cl) == len(raw))
-        return bool(ok)
+        if not (raw.startswith(b"Dataset {") and b"Data:\n" in raw):
+            return False
+        dds, xdr = X.split_body(raw)
+        print("observed", xdr.hex(), "expected", c.get("ref"))
+        return (cl is None or int(cl) == len(raw)) and xdr.hex() == c.get("ref") and \
+            X.get(app, "/d.dds?" + c["ce"]).body == dds
     fails, _ = judge(t, d, tail)
     for what, obs, exp in fails:
         print("FAILS:", what, "| observed", str(obs)[:300], "| expected", str(exp)[:300])
